@@ -14,8 +14,8 @@
 //
 // Symbolic: the bytes marked \x01 (any of the 256 values) and \x02 (any value; case-split per hex digit, see sizeByte())
 // of each family's skeleton, short fully symbolic streams, relaxed_header_parser, small header-size limits.
-// Every stream is delivered in one piece, split in two at every position of a window around the symbolic bytes
-// (thorough: every position), and byte by byte.
+// Every stream is delivered in one piece, split in two right before the first and right after the last symbolic byte
+// (thorough: at every position from two bytes before the first to four bytes after the last), and byte by byte.
 //
 // Oracle: none of its own. The assertions are the engine's: no out-of-bounds / use-after-free / double free access, no
 // assert()/Must()/fatal()/abort() reached other than a Must() that the real caller catches as a parse error (the chunked
@@ -442,7 +442,7 @@ static void fill(Stream &s, const char *tmpl, const unsigned tlen)
 static void window(const Stream &s, unsigned &lo, unsigned &hi)
 {
 #ifdef VF_THOROUGH
-    lo = 1; hi = s.n;
+    lo = s.symLo > 2 ? s.symLo - 2 : 1; hi = s.symHi + 4;   // every read boundary from two bytes before the first to four bytes after the last symbolic byte
 #else
     lo = s.symLo; hi = s.symHi + 1;   // a read boundary right before the first and right after the last symbolic byte
 #endif
@@ -455,14 +455,13 @@ static void configure(const int relaxed, const size_t maxReq, const size_t maxRe
 }
 
 // relaxed_header_parser: 0 = off, 1 = on (default), -1 = on with warnings (differs from 1 only in debugs() levels).
-// Thorough: {-1,0,1} everywhere. Quick: {0,1} in the start-line, limit and fully symbolic entries (bothModes), the default (1) in
-// the others.
-static int relaxedSetting(const bool bothModes = true)
+// allModes entries (start-line, limit and fully symbolic streams): quick {0,1}, thorough {-1,0,1}; the others: quick 1, thorough {0,1}.
+static int relaxedSetting(const bool allModes = true)
 {
 #ifdef VF_THOROUGH
-    return (int)vf_concretize(vf_range(0, 2, "relaxed")) - 1;
+    return allModes ? (int)vf_concretize(vf_range(0, 2, "relaxed")) - 1 : (int)vf_concretize(vf_range(0, 1, "relaxed"));
 #else
-    return bothModes ? (int)vf_concretize(vf_range(0, 1, "relaxed")) : 1;
+    return allModes ? (int)vf_concretize(vf_range(0, 1, "relaxed")) : 1;
 #endif
 }
 
@@ -512,16 +511,16 @@ static void serverStream(const Stream &s)
 // ---------------------------------------------------------------------------------------------- families
 struct Tmpl { const char *s; unsigned n; };
 #define L(lit) {lit, sizeof(lit) - 1}
-static void clientFamilies(const Tmpl *t, const unsigned count, const bool bothModes, const unsigned bodyCap = 65536, const bool intercepted = true)
+static void clientFamilies(const Tmpl *t, const unsigned count, const bool allModes, const unsigned bodyCap = 65536, const bool intercepted = true)
 {
-    configure(relaxedSetting(bothModes), 65536, 65536);
+    configure(relaxedSetting(allModes), 65536, 65536);
     const Tmpl &f = t[count > 1 ? vf_concretize(vf_range(0, count - 1, "skeleton")) : 0];
     static Stream s; fill(s, f.s, f.n);
     clientStream(s, bodyCap, intercepted);
 }
-static void serverFamilies(const Tmpl *t, const unsigned count, const bool bothModes)
+static void serverFamilies(const Tmpl *t, const unsigned count, const bool allModes)
 {
-    configure(relaxedSetting(bothModes), 65536, 65536);
+    configure(relaxedSetting(allModes), 65536, 65536);
     const Tmpl &f = t[count > 1 ? vf_concretize(vf_range(0, count - 1, "skeleton")) : 0];
     static Stream s; fill(s, f.s, f.n);
     serverStream(s);
@@ -572,11 +571,9 @@ CLIENT(f_req_fields,
            "POST / HTTP/1.1\r\nContent-Length: \x01\x01\r\nContent-Length:\x01" "1\r\n\r\n")),
        L(T("GET / HTTP/1.1\r\nRange: bytes=\x01-\x01\r\n\r\n",
            "GET / HTTP/1.1\r\nRange: bytes=\x01\x01-\x01\r\n\r\n")),
-       L(T("GET / HTTP/1.1\r\nCache-Control: max-age=\x01,\x01\r\n\r\n",
-           "GET / HTTP/1.1\r\nCache-Control: max-age=\x01\x01,\x01\r\n\r\n")))
+       L("GET / HTTP/1.1\r\nCache-Control: max-age=\x01,\x01\r\n\r\n"))
 CLIENT(f_req_fields2,
-       L(T("OPTIONS * HTTP/1.1\r\nMax-Forwards: \x01\r\nConnection:\x01" "close\r\n\r\n",
-           "OPTIONS * HTTP/1.1\r\nMax-Forwards: \x01\x01\r\nConnection:\x01" "close\r\n\r\n")),
+       L("OPTIONS * HTTP/1.1\r\nMax-Forwards: \x01\r\nConnection:\x01" "close\r\n\r\n"),
        L(T("POST / HTTP/1.\x01\r\nTransfer-Encoding:\x01" "chunked\r\n\r\n0\r\n\r\n",
            "POST / HTTP/1.\x01\r\nTransfer-Encoding:\x01" "chunked\x01\r\n\r\n0\r\n\r\n")))
 // chunked request body behind a fixed head; output space of 1 or 3 bytes so that the parser is re-entered for lack of space
@@ -603,7 +600,7 @@ static void f_req_limit(void)
 }
 
 // short fully symbolic request streams
-#define NREQ T(3, 5)
+#define NREQ T(3, 4)
 static void f_req_any(void)
 {
     configure(relaxedSetting(), 65536, 65536);
@@ -633,23 +630,19 @@ SERVER(f_rep_hdr,
 SERVER(f_rep_fields,
        L(T(RP "Content-Length: 1\x01\r\nContent-Length:\x01" "1\r\n\r\nab",
            RP "Content-Length: \x01\x01\r\nContent-Length:\x01" "1\r\n\r\nab")),
-       L(T(RP "Cache-Control: max-age=\x01,\x01\r\n\r\n",
-           RP "Cache-Control: max-age=\x01\x01,\x01\r\n\r\n")),
+       L(RP "Cache-Control: max-age=\x01,\x01\r\n\r\n"),
        L(T("HTTP/1.1 206 Partial Content\r\nContent-Range: bytes \x01-1/\x01\r\n\r\n",
            "HTTP/1.1 206 Partial Content\r\nContent-Range: bytes \x01-\x01/\x01\r\n\r\n")))
 SERVER(f_rep_fields2,
-       L(T(RP "Surrogate-Control: max-age=\x01;\x01\r\n\r\n",
-           RP "Surrogate-Control: max-age=\x01\x01;\x01\r\n\r\n")),
+       L(RP "Surrogate-Control: max-age=\x01;\x01\r\n\r\n"),
        L(T(RP "Connection:\x01" "close\r\nContent-Type: a/b\x01\r\n\r\n",
            RP "Connection:\x01" "close\r\nContent-Type: a/b\x01\x01\r\n\r\n")))
 // dates: a byte of each element of the three date formats Time::ParseRfc1123() accepts, and a short free-form value
 SERVER(f_rep_dates,
-       L(T(RP "Date: Sun, 06 Nov 1994 08:49:\x01\x01 GMT\r\n\r\n",
-           RP "Date: Sun, 06 Nov 1994 08:49:\x01\x01 GMT\r\nExpires: \x01\x01\r\n\r\n")),
+       L(RP "Date: Sun, 06 Nov 1994 08:49:\x01\x01 GMT\r\n\r\n"),
        L(T(RP "Expires: \x01\x01\r\n\r\n",
-           RP "Date: \x01\x01\x01\r\n\r\n")),
-       L(T(RP "Last-Modified: Sunday, 06-Nov-94 08:\x01\x01:37 GMT\r\n\r\n",
-           RP "Last-Modified: Sunday, 06-Nov-94 08:\x01\x01:37 GMT\r\nKeep-Alive:\x01\r\n\r\n")))
+           RP "Expires: \x01\x01\x01\r\n\r\n")),
+       L(RP "Last-Modified: Sunday, 06-Nov-94 08:\x01\x01:37 GMT\r\n\r\n"))
 // 1xx control messages in front of the final reply
 SERVER(f_rep_1xx,
        L("HTTP/1.1 1\x01\x01 C\r\n\r\n" RP "\r\n"),
@@ -679,7 +672,7 @@ static void f_rep_limit(void)
 }
 
 // short fully symbolic reply streams
-#define NREP T(5, 7)
+#define NREP T(5, 6)
 static void f_rep_any(void)
 {
     configure(relaxedSetting(), 65536, 65536);
